@@ -199,6 +199,8 @@ def expected(pre, op, pool):
         for (kind, mid), c in op[2]:
             if kind == "id" and mid not in M:
                 return {"raise": True}
+            if mid not in M and " " in mid:
+                return {"raise": True}   # a new metabolite whose id the solver interface refuses; nothing may change
             template = None
             if mid not in M:
                 template = pool.get("met:" + mid)
@@ -271,6 +273,11 @@ def expected(pre, op, pool):
         if len(set(fresh_ids)) != len(fresh_ids):
             return {"raise": True}
         for n in fresh:
+            # an identifier (of the reaction or of a metabolite it brings along) that the solver interface refuses:
+            # the call raises and nothing may change
+            if " " in pool["rxn:" + n]["id"] or any(" " in m and m not in M for m in pool["rxn:" + n]["mets"]):
+                return {"raise": True}
+        for n in fresh:
             pv = copy.deepcopy(pool["rxn:" + n])
             rid = pv["id"]
             pv["has_model"] = True
@@ -297,6 +304,8 @@ def expected(pre, op, pool):
     if k == "add_model_mets":
         if len(set(op[1])) < len(op[1]):
             return None     # the same object twice in one call: undocumented (the invariants still apply afterwards)
+        if any(" " in pool["met:" + n]["id"] and pool["met:" + n]["id"] not in M for n in op[1]):
+            return {"raise": True}   # refused by the solver interface; nothing may change
         for n in op[1]:
             pv = pool["met:" + n]
             if pv["id"] not in M:
@@ -494,6 +503,8 @@ def expected(pre, op, pool):
             if val not in R:
                 return {"raise": True}
             v["objective"]["coefficients"] = {val: 1}
+        elif kind == "dict_detached":
+            return {"raise": True}   # a reaction that is not in the model cannot be part of its objective
         else:
             v["objective"]["coefficients"] = {r: _n(c) for r, c in val if c != 0}
         return {"view": v}
